@@ -5,6 +5,7 @@ from __future__ import annotations
 import json
 import os
 import subprocess
+import sys
 import tempfile
 import time
 import traceback
@@ -200,6 +201,12 @@ def verify_function(world, cs, contract, limits=Limits):
                 if contract.pre is not None:
                     ctx.assume(_tb(truth(contract.eval_clause(I, contract.pre, ns))))
                 ctx.mark_reach("pre")
+                for cl in contract.splits:
+                    sp = contract.eval_clause(I, cl, ns)
+                    expr, lo, hi = sp
+                    from .ops import zi as _zi
+                    ctx.prove(f"split.{cl.name}.in_range@{contract.target}", z3.And(_zi(expr) >= lo, _zi(expr) <= hi))
+                    ctx.split_int(_zi(expr), lo, hi)
                 outcome = None
                 try:
                     v = I.run_body(fi, env)
@@ -223,6 +230,8 @@ def verify_function(world, cs, contract, limits=Limits):
         except Exception:  # noqa: BLE001  generator crash
             res.error = traceback.format_exc()
             break
+        if os.environ.get("PYVC_TRACE"):
+            print(f"[path {res.paths}] decisions={''.join('T' if d else 'F' for d in ctx.taken)} obl={len(ctx.obligations)} last={[str(x)[:100] for x in ctx.pc[-2:]]}", file=sys.stderr)
         pending.extend(ctx.pending)
         for ob in ctx.obligations:
             if ob.status == "open":
